@@ -149,7 +149,8 @@ def signature(case: T.Dict[str, T.Any], v: T.Dict[str, T.Any]) -> str:
         sp_runs = {t['name'] for t in case['p']['targets'] if t['kind'] in ('run', 'alias') and t['sp']}
         if all(q in sp_runs for q in v['detail']):
             return 'Closed:bare-name-of-subproject-run-target-as-input'
-    return f"{clause}@{short_project(case['p'])}:{'|'.join(sorted(v['detail'])[:3])[:200]}"
+    opts = ''.join(sorted(case['info'].get('extra_args', [])))
+    return f"{clause}@{short_project(case['p'])}{opts}:{'|'.join(sorted(v['detail'])[:3])[:200]}"
 
 
 # ---------------------------------------------------------------------------
@@ -161,6 +162,7 @@ def _tag(job: T.Dict[str, T.Any], case: T.Dict[str, T.Any]) -> T.Dict[str, T.Any
             case['info'][k] = job[k]
     if job.get('p') is not None:
         case['info']['p_full'] = job['p']
+    case['info']['extra_args'] = list(job.get('extra_args', []))
     return case
 
 
@@ -213,6 +215,26 @@ def odd_names_project(layout: str) -> T.Dict[str, T.Any]:
     return projgen.normalize({'name': 'odd', 'layout': layout, 'deflib': 'shared', 'targets': ts})
 
 
+def shared_genlist_project(layout: str) -> T.Dict[str, T.Any]:
+    """ONE generator.process() result consumed by several targets: build target then custom target, custom target
+    then build target, two custom targets (every consumer needs its own copy of the generator statements)."""
+    ts = [
+        {'kind': 'exe', 'name': 'useA', 'srcs': ['m1.c'], 'glist': [1]},
+        {'kind': 'custom', 'name': 'packA', 'outs': ['packA.txt'], 'glist': [1], 'bbd': 'true'},
+        {'kind': 'custom', 'name': 'packB', 'outs': ['packB.txt'], 'glist': [2], 'bbd': 'true', 'subdir': 'sub'},
+        {'kind': 'static', 'name': 'useB', 'srcs': ['m4.c'], 'glist': [2], 'subdir': 'sub'},
+        {'kind': 'custom', 'name': 'packC', 'outs': ['packC.txt'], 'glist': [3, 1], 'bbd': 'true'},
+        {'kind': 'custom', 'name': 'packD', 'outs': ['packD.txt', 'packD2.txt'], 'glist': [3]},
+    ]
+    return projgen.normalize({'name': 'shgen', 'layout': layout, 'deflib': 'shared', 'targets': ts,
+                              'genlists': [{'files': ['a.in', 'b.in']}, {'files': ['c.in']}, {'files': ['d.in']}]})
+
+
+# base options that add statements / targets to the manifest
+BASE_OPTION_SETS: T.List[T.List[str]] = [[], [], ['-Db_coverage=true'], ['-Db_lto=true'], ['-Db_pch=false'],
+                                        ['-Db_coverage=true', '-Db_lto=true']]
+
+
 def main(chk: Check) -> None:
     quick = chk.tier == 'quick'
     rnd = random.Random(chk.seed * 1000003 + 4)
@@ -234,10 +256,12 @@ def main(chk: Check) -> None:
         r2 = random.Random(chk.seed * 7919 + k)
         p = projgen.random_project(r2, n_targets=r2.randint(3, 14), installs=False, options=False, custom_inputs=True,
                                    alias_runs=True)
-        bjobs.append({'id': f'B{k}', 'kind': 'proj', 'p': p})
+        bjobs.append({'id': f'B{k}', 'kind': 'proj', 'p': p, 'extra_args': r2.choice(BASE_OPTION_SETS)})
     bjobs.append({'id': 'P0', 'kind': 'proj', 'p': pipe_name_project(), 'tag': 'target-name-with-pipe'})
-    bjobs.append({'id': 'O0', 'kind': 'proj', 'p': odd_names_project('mirror')})
+    bjobs.append({'id': 'O0', 'kind': 'proj', 'p': odd_names_project('mirror'), 'extra_args': ['-Db_coverage=true']})
     bjobs.append({'id': 'O1', 'kind': 'proj', 'p': odd_names_project('flat')})
+    bjobs.append({'id': 'G0', 'kind': 'proj', 'p': shared_genlist_project('mirror')})
+    bjobs.append({'id': 'G1', 'kind': 'proj', 'p': shared_genlist_project('flat'), 'extra_args': ['-Db_coverage=true']})
     dirs = bv.corpus_dirs()
     if len(dirs) > n_corpus:
         dirs = sorted(rnd.sample(dirs, n_corpus))
@@ -261,7 +285,8 @@ def main(chk: Check) -> None:
             # the expectations of F1-F4 do not depend on unity: vary it on the real run (F5 fixes it itself)
             if family != 'F5':
                 p['unity'] = rnd.choice(['off', 'off', 'on'])
-            jobs.append({'id': f'A{k}', 'kind': 'proj', 'p': p, 'family': family, 'expect': x})
+            jobs.append({'id': f'A{k}', 'kind': 'proj', 'p': p, 'family': family, 'expect': x,
+                         'extra_args': rnd.choice(BASE_OPTION_SETS)})
         wjobs = [(lo, graphs[lo:lo + 1500]) for lo in range(0, len(graphs), 1500)]
         wfut = [ex.submit(_writer_worker, j) for j in wjobs]
         for case in ex.map(_run_job, jobs, chunksize=1):
@@ -336,7 +361,7 @@ def replay(chk: Check, data: T.Dict[str, T.Any]) -> None:
         cases = [_run_job({'id': det['verdict']['id'], 'kind': 'corpus', 'p': None, 'srcdir': str(dd), 'name': dd.name})]
     else:
         p = projgen.normalize(det['info'].get('p_full') or det['project'])
-        job = {'id': det['verdict']['id'], 'kind': 'proj', 'p': p}
+        job = {'id': det['verdict']['id'], 'kind': 'proj', 'p': p, 'extra_args': det['info'].get('extra_args', [])}
         if det['info'].get('tag'):
             job['tag'] = det['info']['tag']
         cases = [_run_job(job)]
